@@ -198,6 +198,9 @@ def spec_hash(modules=None):
     return h.hexdigest()[:16]
 
 
+GENERATORS = {}
+
+
 def generate(module, constants, tag, invariants=("Emit",), workers=4, timeout=1800, env=None, deps=None):
     """(G) role: run a generator spec, return the list of emitted JSON descriptors. Cached by spec hash."""
     gdir = WORK / "gen"
@@ -207,7 +210,13 @@ def generate(module, constants, tag, invariants=("Emit",), workers=4, timeout=18
     for old in gdir.glob(f"{tag}_*"):
         if key not in old.name:
             old.unlink()
+    stats = gdir / f"{tag}_{key}.stats"
     if out.exists():
+        try:
+            cached = json.loads(stats.read_text())
+        except Exception:
+            cached = {}
+        GENERATORS[tag] = {"module": module, "descriptors": sum(1 for _ in open(out)), "tlc_distinct_states": cached.get("distinct"), "cached": True}
         return [json.loads(l) for l in out.read_text().splitlines()], 0, 0
     cfg = write_cfg(gdir / f"{tag}_{key}.cfg", constants=constants, invariants=invariants)
     r = tlc_ok(module, cfg, workers=workers, timeout=timeout, env=env)
@@ -215,8 +224,12 @@ def generate(module, constants, tag, invariants=("Emit",), workers=4, timeout=18
     tmp = out.with_suffix(".tmp")
     tmp.write_text("".join(json.dumps(x, separators=(",", ":")) + "\n" for x in recs))
     tmp.rename(out)
-    (gdir / f"{tag}_{key}.stats").write_text(json.dumps({"generated": r.generated, "distinct": r.distinct}))
-    return recs, r.generated, r.distinct
+    stats.write_text(json.dumps({"generated": r.generated, "distinct": r.distinct}))
+    # Generator states are reported per generator (coverage.parts.generators), never added to coverage.states: the
+    # descriptor files are cached by the hash of the generator's specs and constants, and the evidence of a run must
+    # not depend on whether that cache was warm.
+    GENERATORS[tag] = {"module": module, "descriptors": len(recs), "tlc_distinct_states": r.distinct, "cached": False}
+    return recs, 0, 0
 
 
 def write_ndjson(path, recs):
@@ -394,6 +407,8 @@ class Check:
         cov = self.cov
         cov["known_findings_seen"] = self.known_hits
         cov["violation_signatures"] = self.sig_counts
+        if GENERATORS:
+            cov["parts"]["generators"] = dict(GENERATORS)
         if not cov["rule"]:
             cov.pop("rule")
         ev = {"property_id": self.prop, "tier": self.tier, "seed": seed(), "level": self.level, "coverage": cov,
